@@ -56,6 +56,9 @@ def gen_ops(ctx):
                         A = lambda alg, arg=0, sv_=None, dv_=None, s2=None: ops.append(line(alg, org, sk, dk, w, h, so, do, spad, dpad, arg, sv if sv_ is None else sv_, dv if dv_ is None else dv_, s2))
                         A("copy"); A("cconv"); A("fill", r.below(R)); A("generate", r.below(R)); A("foreach", 1 + r.below(R - 1)); A("foreachpos", 1 + r.below(R - 1))
                         A("tr1", r.below(R)); A("trpos", r.below(R)); A("tr2", r.below(R), s2=vals(r, org, n))
+                        if org in ("rgb8", "rgb8p"):
+                            # value / functor result of a compatible pixel type with ANOTHER channel order (bgr8): channels pair by colour
+                            A("fillx", r.below(R)); A("genx", r.below(R)); A("tr1x", r.below(R))
                         # equal: identical content, and a single differing pixel at every position (quick: a few positions)
                         ev = vals(r, org, n, special=True)
                         if org == "rgb32f": ev = [v if v % 8 != 7 and (v >> 3) % 8 != 7 and (v >> 6) % 8 != 7 else 2 for v in ev]
